@@ -243,19 +243,18 @@ fn hands<const N: usize>(run: &mut Run, stratum: u64) -> PResult {
     Ok(())
 }
 
+/// slots of the slot-wise clause: the statement defines shifting for cards and blank only, so only
+/// those are generated (what a container does with other words is not asserted)
 fn word_strategy() -> impl Strategy<Value = u32> {
     prop_oneof![
         12 => (0usize..52).prop_map(|i| card::DECK[i]),
         3 => Just(0u32),
-        2 => any::<u32>(),
-        1 => (0usize..52, 0u32..32).prop_map(|(i, b)| card::DECK[i] ^ (1 << b)),
-        1 => (0usize..52, 1u32..8).prop_map(|(i, m)| card::DECK[i] | (m << 29)),
     ]
 }
 
 pub fn run(run: &mut Run) -> PResult {
-    run.rule = "52 cards + blank for the per-card clause; every five-card subset under all 24 relabellings of the four suits (applied by the model) and 1..3 applications of the crate's container shift, every six-card subset and (quick: 1-in-8 stratum / thorough: every) seven-card subset, ascending and descending, under the three non-trivial shifts, values also compared with the model ordinal; proptest hands of 2..7 slots over cards, blank and arbitrary words for the slot-wise clause. Non-trivial = relabelled hands (all) / hands of the slot-wise clause containing a blank, a repeat or a non-card word; distinct = distinct subsets / word arrays".into();
-    run.assume("for non-card words the container shift is compared with the crate's own per-word shift (the statement defines shifting only for cards and blank)");
+    run.rule = "52 cards + blank for the per-card clause; every five-card subset under all 24 relabellings of the four suits (applied by the model) and 1..3 applications of the crate's container shift, every six-card subset and (quick: 1-in-8 stratum / thorough: every) seven-card subset, ascending and descending, under the three non-trivial shifts, values also compared with the model ordinal; proptest hands of 2..7 slots over cards and blank (with repeats) for the slot-wise clause. Non-trivial = relabelled hands (all) / hands of the slot-wise clause containing a blank or a repeat; distinct = distinct subsets / word arrays".into();
+    run.assume("shifting is defined for cards and blank only; containers holding other words are not generated");
     super::regress::replay_dir(run, "C08", check_case)?;
     {
         let items: Vec<u32> = card::DECK.iter().copied().chain([0u32]).collect();
@@ -300,7 +299,7 @@ pub fn run(run: &mut Run) -> PResult {
                 e
             })
         });
-        st.flush(run, "proptest hands of 2..7 slots, slot-wise shift", "proptest (8 shards)", None, "words: 2/3 cards, blank, raw u32, one-bit corruptions");
+        st.flush(run, "proptest hands of 2..7 slots, slot-wise shift", "proptest (8 shards)", None, "slots: cards (4/5) and blank (1/5), repeats allowed");
         if let Err(f) = res {
             let m = slotwise(&f.value).err().unwrap_or_default();
             return run.violation("C08.slotwise", &card::render_hand(&f.value), hand_json(&f.value), &m);
